@@ -11,9 +11,9 @@ def run(cmd, **kw):
     return subprocess.run(cmd, capture_output=True, text=True, **kw)
 run(['git', '-C', tree, 'checkout', '--', 'slimta'])
 meta = {'property': check_id, 'seeded_for': pid, 'source': 'independent sub-agent given only the property text and a scratch worktree'}
-r = run(['/venv/bin/python', '%s/demo.py' % src], cwd=tree); meta['demo_clean_exit'] = r.returncode
+r = run(['/venv/bin/python', '%s/demo.py' % src], cwd=tree, env=dict(os.environ, PYTHONPATH=tree)); meta['demo_clean_exit'] = r.returncode
 a = run(['git', '-C', tree, 'apply', '%s/patch.diff' % src]); assert a.returncode == 0, a.stderr
-r = run(['/venv/bin/python', '%s/demo.py' % src], cwd=tree); meta['demo_patched_exit'] = r.returncode
+r = run(['/venv/bin/python', '%s/demo.py' % src], cwd=tree, env=dict(os.environ, PYTHONPATH=tree)); meta['demo_patched_exit'] = r.returncode
 b = run([os.path.join(here, 'tools', 'baseline.py'), tree]); meta['existing_tests_with_patch'] = b.stdout.strip().splitlines()[0] if b.stdout else b.stderr[-200:]
 meta['existing_tests_ok'] = b.returncode == 0
 run(['git', '-C', tree, 'checkout', '--', 'slimta'])
